@@ -1281,6 +1281,36 @@ def rule_expression_evaluators_keyed_by_consts(rep: Report, ix, sites) -> None:
     rep.floor("cached expression methods that hand out evaluators", n, 2)
 
 
+def rule_cache_inventory(rep: Report, ix, km: ck.KeyModel) -> None:
+    """Everything C04 proves concerns the decorator sites, the `_cache_hash` hooks and PDE._prepare_cache.  A memoisation
+    written by hand with `hash_mutable(...)` as its key is outside that analysis -- and for boundary conditions the key is
+    wrong by construction whenever the cached value has boundary *values* baked in: ConstBCBase hashes a linked value by the
+    address of the linked array (right for compiled operators that read the array at call time), so the key does not change
+    when the array's contents do.  Rule: `hash_mutable` is called only inside tools/cache.py and inside `_cache_hash` hooks."""
+    uses = []
+    for rel, m in ix.modules.items():
+        if rel == "pde/tools/cache.py":
+            continue
+        for f in m.functions.values():
+            if f.node.name == km.hook:
+                continue
+            own_nested = {id(x) for g in f.nested() for x in ast.walk(g.node)}
+            for c in ast.walk(f.node):
+                if id(c) in own_nested:
+                    continue
+                if isinstance(c, ast.Call) and ast.unparse(c.func).split(".")[-1] == "hash_mutable":
+                    uses.append((f, c))
+    rep.oblige("hash_mutable is used as a key only by the cache module and the `_cache_hash` hooks", not uses, [f"{f.ref}: {ast.unparse(c)[:50]}" for f, c in uses])
+    for f, c in uses:
+        rep.violation(
+            "C04.unlisted-cache",
+            f"{f.ref}::hash_mutable",
+            f"`{ast.unparse(c)[:60]}` keys a hand-written memoisation: boundary conditions hash linked values by the address of the linked array, so a cached object that has the boundary "
+            "values baked in (e.g. an assembled matrix/vector) is handed out again after the linked array was updated in place -- the result depends on what was computed before",
+            line=c.lineno,
+        )
+
+
 def check(tier: str) -> Report:
     rep = Report("C04", tier, "other", "cache-key composition read from tools/cache.py + class index; interprocedural address-capture tracking; re-bind/invalidation rule")
     rep.explanation = (
@@ -1386,6 +1416,7 @@ def check(tier: str) -> Report:
     rule_cached_mutable_result(rep, ix, sites)
     rule_fresh_keys_and_state(rep, ix, km)
     rule_expression_evaluators_keyed_by_consts(rep, ix, sites)
+    rule_cache_inventory(rep, ix, km)
 
     rep.assumptions += [
         "annotations describe the argument types (values smuggled through Any/**kwargs are listed as unclassified notes)",
